@@ -16,7 +16,7 @@ func init() {
 			"D2 the argument is neither modified nor captured — for all MergeWith implementations (2 sketches, statistics, every Store implementation) the observable write set rooted at the argument is empty and no reference into the argument is stored into the receiver (alias analysis: `*s = *o`, `s.bins = o.bins` style sharing is reported). "+
 			"D3 any store kind is accepted — every type assertion on the argument is comma-ok, the non-matching branch iterates the argument with ForEach and a callback that re-adds (index, count) through the receiver's own AddWithCount and never stops the iteration; the paginated fast path is additionally conditioned on equal page size. "+
 			"D4 cached totals follow — in the dense family every path that adds argument bins into the receiver's array also adds the argument's cached total; the empty-argument shortcut writes nothing. "+
-			"SHARED (obligations of other properties that decide clauses this property states too, re-evaluated here under their home rule ids): C10-D3 MergeWith as C02-D5 (the statistics object of the exact variant folds every accumulator of the argument and updates min and max independently of each other). C19-D2/D3 (Equals of the mappings — sketches with the same mapping must be mergeable, so Equals must hold for a mapping and itself: symmetric tolerance table over absolute values). C15-D2 and, as C02-D6, the Clear of the statistics object and of the exact variant's wrapper (a cleared sketch is an empty part: merging it is a no-op only if Clear restores the constructor's value of every field, the ±Inf extremes included). C15-D1 for every store (Clear covers every field the queries read: a cleared store merged into reports the extremes of what it holds now). The sorted-flag typestate of the paginated store when it has one (a merge that appends to the buffer lowers the flag). C14-D2 for the two sketch types (a copy shares nothing with its original, so a part that is a copy stays independent of the receiver it was copied from). "+
+			"SHARED (obligations of other properties that decide clauses this property states too, re-evaluated here under their home rule ids): C10-D3 MergeWith as C02-D5 (the statistics object of the exact variant folds every accumulator of the argument and updates min and max independently of each other). C19-D2/D3 (Equals of the mappings — sketches with the same mapping must be mergeable, so Equals must hold for a mapping and itself: symmetric tolerance table over absolute values). C15-D2 and, as C02-D6, the Clear of the statistics object and of the exact variant's wrapper (a cleared sketch is an empty part: merging it is a no-op only if Clear restores the constructor's value of every field, the ±Inf extremes included). C15-D1 for every store (Clear covers every field the queries read: a cleared store merged into reports the extremes of what it holds now). The AddWithCount row of the exact variant's wrapper as C02-D6 (a weight of zero leaves the statistics alone: a sketch that absorbed nothing merges as a no-op). C04-D9 for the paginated MergeWith (pages through the accessor; a slot pages[x − first] uses the table and its base of the same moment, no table-growing call in between). The sorted-flag typestate of the paginated store when it has one (a merge that appends to the buffer lowers the flag). C14-D2 for the two sketch types (a copy shares nothing with its original, so a part that is a copy stays independent of the receiver it was copied from). "+
 			"NOT DECIDED: equality of bin contents for all partitions and merge trees (follows from per-index additivity, which is C04's numeric core), associativity of float addition.",
 		"one obligation per path of the sketch merge table, per MergeWith implementation × (write set, capture set, assertion, fallback, cached total); non-trivial = needed a path / mod-set evaluation",
 		false, runC02)
@@ -42,6 +42,10 @@ func runC02(c *Ctx) {
 	c.shared(func() { c15Sketch(c, a) }, func(o *Obligation) bool { return true })
 	c10StatObject(c, a, "C02-D6", "Clear")
 	c10Wrappers(c, a, "C02-D6", "Clear")
+	// "merging an empty sketch is a no-op": a sketch that absorbed no weight holds the statistics of an empty one — the
+	// exact variant's AddWithCount leaves them alone for a weight of zero (the statistics' Add would record the value
+	// as an extreme, and the statistics' merge takes the argument's extremes as they are)
+	c10Wrappers(c, a, "C02-D6", "AddWithCount")
 	// parts of a partition are independent objects: a Copy of a sketch (either variant) shares nothing with its
 	// original, so merging into one leaves the other — possibly the argument — untouched
 	c.shared(func() { c14Copies(c, a) }, keyMentions("DDSketch"))
@@ -55,6 +59,9 @@ func runC02(c *Ctx) {
 				c.shared(func() { c15ClearCovers(c, t, dense, pr) }, func(o *Obligation) bool { return true })
 			}
 		}
+		// the same-kind merge of the paginated store works on the receiver's page table while it adds to the receiver:
+		// pages are reached through the accessor, and a slot is computed from the table's base of the same moment
+		c.shared(func() { c04PageTable(c, pr, "C04-D9"); c04PageUse(c, pr, "C04-D9") }, keyMentions("MergeWith"))
 		// a merge that appends to the paginated store's buffer keeps its "buffer is sorted" cache honest
 		if pr.sortFlag != "" {
 			c.shared(func() { c14SortFlag(c, pr) }, func(o *Obligation) bool { return true })
